@@ -52,3 +52,37 @@ Definition sync_step (s : sync) (e : sev) : sync :=
   end.
 Definition sync_run (s : sync) (es : list sev) : sync := fold_left sync_step es s.
 Definition sync0 (vals : list validator) : sync := mkSync 1 vals [] [].
+
+(* The loop as the code runs it: the commit check of the first block and its removal from the pool
+   are two steps of the reactor's routine, and the pool lock is not held in between - responses
+   arrive and peers are removed meanwhile (removePeer empties the requester of the height being
+   checked, which may then be filled by another peer's block).  What is executed at the pop is
+   the block that was checked, whatever the pool holds by then. *)
+Record sync2 := mkS2 { s2_s : sync; s2_checked : option sblock }.
+Inductive sev2 := E2Resp (peer : N) (b : sblock) | E2Remove (peer : N) | E2Check | E2Pop.
+Definition sync2_step (t : sync2) (e : sev2) : sync2 :=
+  let s := s2_s t in
+  match e with
+  | E2Resp p b => mkS2 (sync_step s (EResp p b)) (s2_checked t)
+  | E2Remove p => mkS2 (sync_step s (ERemove p)) (s2_checked t)
+  | E2Check =>
+    match s2_checked t with
+    | Some _ => t                      (* the routine is sequential: a successful check is followed by its pop *)
+    | None =>
+      match pool_get (s_pool s) (s_height s), pool_get (s_pool s) (s_height s + 1) with
+      | Some (p1, first), Some (p2, second) =>
+        match verify_commit (s_vals s) (sb_id first) (s_height s) (sb_last second) with
+        | Ok _ => mkS2 s (Some first)
+        | _ => mkS2 (mkSync (s_height s) (s_vals s) (s_store s) (pool_drop_peer (pool_drop_peer (s_pool s) p1) p2)) None
+        end
+      | _, _ => t
+      end
+    end
+  | E2Pop =>
+    match s2_checked t with
+    | None => t
+    | Some first => mkS2 (mkSync (s_height s + 1) (s_vals s) (first :: s_store s) (pool_del (s_pool s) (s_height s))) None
+    end
+  end.
+Definition sync2_run (t : sync2) (es : list sev2) : sync2 := fold_left sync2_step es t.
+Definition sync2_0 (vals : list validator) : sync2 := mkS2 (sync0 vals) None.
